@@ -500,6 +500,9 @@ class Interp:
                     loc = v.loc
                 elif isinstance(v, Opaque) and v.kind == "box":
                     loc = v.get("loc")
+                elif isinstance(v, Opaque) and v.kind in ("str", "string"):
+                    # &str / &String constants are modelled by value: *s is s
+                    loc = st.new_heap(v)
                 else:
                     # deref of unknown pointer: materialise an unknown heap cell
                     tl = st.new_heap(Top(None, deps_of(v), getattr(v, "tags", frozenset())))
@@ -1359,11 +1362,38 @@ class Interp:
         if st.frames and fr.dest is not None:
             self.write_loc(st, fr.dest, rv)
             caller = st.top()
-            if fr.target is None:
+            if fr.target == "stay":
+                pass
+            elif fr.target is None:
                 st.status = "diverged"
             else:
                 self.goto(st, caller, fr.target)
         return None
+
+    def run_nested(self, st, fn, args):
+        """run fn(args) to completion from `st` (which stays at its current statement); outcomes with identical
+        visible state are merged. Returns [(state, return value)]"""
+        depth = len(st.frames)
+        s = st.copy()
+        cell = s.new_heap(None)
+        saved_stop = s.stop
+        s.stop = None
+        self.call_counts[fn["path"]] = self.call_counts.get(fn["path"], 0) + 1
+        self.call_fn(s, fn, args, dest_loc=cell, target="stay")
+        outs = self.explore(s, depth)
+        for o in outs:
+            o.stop = saved_stop
+        if self.opts.get("merge_returns", True) and len(outs) > 1:
+            st_ref = st.copy()
+            st_ref.heap[cell[1]] = None
+            outs = self.merge_outcomes(st_ref, outs, depth, cell)
+        res = []
+        for o in outs:
+            if o.status != "run" or len(o.frames) != depth:
+                res.append((o, None))
+                continue
+            res.append((o, o.heap.get(cell[1])))
+        return res
 
     def do_assert(self, st, fr, a):
         cond = self.operand(st, fr, a["cond"])
